@@ -116,6 +116,30 @@ fn main() {
     // coverage-guided template families with their own oracles (harness/src/bg9cov.rs)
     bg9cov::run_templates(&mut ctx, "C02");
 
+    // ---- pending-operand tie: the number of Pops the real translator emits for every break/continue of the
+    // pending-jump family (read off the unoptimised assembly, instructions carry their source line) against the Lean
+    // model `Abra.Pending` (`pending …`); a difference is a desynchronised operand stack: failing input
+    let pcs = bg9cov::pending_cases(ctx.quick());
+    let preal = par_map(&pcs, |c| bg9cov::real_jump_pops(&c.tpl.src, &[]));
+    let pmodel = model_batch(&pcs.iter().map(|c| c.request.clone()).collect::<Vec<_>>());
+    for ((c, r), m) in pcs.iter().zip(preal).zip(pmodel) {
+        let ans = match &r {
+            Ok(v) if v.is_empty() => "-".to_string(),
+            Ok(v) => v.iter().map(|n| n.to_string()).collect::<Vec<_>>().join(" "),
+            Err(e) => format!("error {}", one_line(e)),
+        };
+        if ans == m {
+            ctx.count("pending-tie:ok");
+        } else {
+            ctx.count("pending-tie:DIFFERS");
+            ctx.spec_fail(format!(
+                "{}: the translator emits Pops [{ans}] for the break/continue statements (source order), the operand stack holds [{m}] operands pushed since the loop body began (Abra.Pending)\n{}",
+                c.tpl.name, c.tpl.src
+            ));
+        }
+        ctx.case(format!("{} #{}", c.request, c.tpl.name.replace(' ', "_")), ans);
+    }
+
     // ---- generated programs
     let per_tier: [usize; 4] = if ctx.quick() { [110, 90, 90, 90] } else { [2500, 2500, 2500, 2500] };
     let mut jobs: Vec<Job> = vec![];
